@@ -1,6 +1,6 @@
 (* The simulation-time loop (Model/SimTime.v) IS the master model (Model/Sim.v [master_loop]) at
-   speed 1 without interrupts, for flat configurations whose devices never ask to be called back in
-   the past. *)
+   speed 1 without interrupts, for every configuration (any nesting) whose devices never ask to be
+   called back in the past. *)
 From TV Require Import Base Model.Wiring Model.Ticker Model.Component Model.Sim Model.SimTime
   Proofs.WiringP Proofs.SimP Proofs.NonInterfP Proofs.NonInterfLoopP.
 Open Scope Z_scope.
@@ -11,35 +11,89 @@ Proof. reflexivity. Qed.
 Section Eq.
 Variable cfg : config.
 Variable devf : devfun.
-Hypothesis Hflat : forall ck, In ck (l_order (level_of cfg top)) -> snd ck = KDev.
 Hypothesis Hwell : forall c n t i w, snd (devf c n t i) = Some w -> t <= w.
 
-(* a tick only adds wakeups at or after its own time *)
-Lemma tick_wakes inner time roots ext s :
-  let '(s2, _, _) := tick_with cfg devf inner top time roots ext s in
-  forall e, In e (wake_of s2 top) -> In e (wake_of s top) \/ time <= snd e.
+(* a tick at time t only adds wakeups at or after t, at every scheduler level *)
+Definition adds_later (t : Z) (s s2 : sstate) : Prop :=
+  forall lv e, In e (wake_of s2 lv) -> In e (wake_of s lv) \/ t <= snd e.
+
+Lemma adds_later_refl t s : adds_later t s s.
+Proof. intros lv e H. left. exact H. Qed.
+
+Lemma adds_later_trans t s1 s2 s3 : adds_later t s1 s2 -> adds_later t s2 s3 -> adds_later t s1 s3.
+Proof. intros H1 H2 lv e H. destruct (H2 lv e H) as [H'|H']; [apply (H1 lv e H') | right; exact H']. Qed.
+
+Lemma adds_later_same t s s2 : s_wake s2 = s_wake s -> adds_later t s s2.
+Proof. intros E lv e H. left. unfold wake_of in *. rewrite <- E. exact H. Qed.
+
+Lemma adds_later_upd t s lv c w : t <= w -> adds_later t s (set_wake s lv (upd c w (wake_of s lv))).
 Proof.
-  unfold tick_with.
-  assert (Hall : forall ck, In ck (all_of (level_of cfg top)) -> snd ck = KDev).
-  { unfold all_of. intros ck [E|Hi]; [subst ck; reflexivity|]. apply in_app_iff in Hi.
-    destruct Hi as [Hi|[E|[]]]; [apply Hflat; exact Hi | subst ck; reflexivity]. }
-  assert (Hgen : forall l a, (forall ck, In ck l -> snd ck = KDev) ->
-            (forall e, In e (wake_of (ta_s a) top) -> In e (wake_of s top) \/ time <= snd e) ->
-            forall e, In e (wake_of (ta_s (fold_left (tick_step devf inner top (l_conns (level_of cfg top)) time roots ext) l a)) top) ->
-                      In e (wake_of s top) \/ time <= snd e).
-  { induction l as [|[c k] r IH]; intros a Hk Ha; [exact Ha|]. cbn [fold_left]. apply IH; [intros ck H; apply Hk; right; exact H|].
-    assert (Ek : k = KDev) by (apply (Hk (c, k)); left; reflexivity). subst k.
+  intros Hw l [c' w'] H. destruct (Pos.eq_dec l lv) as [E|Hne].
+  - subst l. rewrite wake_of_set_wake in H. apply In_upd_cases in H. destruct H as [[_ E]|H]; [right; subst w'; exact Hw | left; exact H].
+  - unfold wake_of, set_wake in H. cbn [s_wake] in H. rewrite get_d_upd_other in H by exact Hne. left. exact H.
+Qed.
+
+Lemma adds_later_filter t s lv f : adds_later t s (set_wake s lv (filter f (wake_of s lv))).
+Proof.
+  intros l e H. left. destruct (Pos.eq_dec l lv) as [E|Hne].
+  - subst l. rewrite wake_of_set_wake in H. apply filter_In in H. apply H.
+  - unfold wake_of, set_wake in H. cbn [s_wake] in H. rewrite get_d_upd_other in H by exact Hne. exact H.
+Qed.
+
+Definition inner_later (inner : positive -> Z -> values -> sstate -> sstate * values * option Z * list obs) : Prop :=
+  forall lv t chg s, let '(s2, _, ca, _) := inner lv t chg s in
+    adds_later t s s2 /\ forall w, ca = Some w -> t <= w.
+
+Lemma tick_with_later inner lv time roots ext s :
+  inner_later inner -> adds_later time s (fst (fst (tick_with cfg devf inner lv time roots ext s))).
+Proof.
+  intros Hin. unfold tick_with. cbn [fst].
+  assert (Hgen : forall l a, adds_later time s (ta_s a) ->
+            adds_later time s (ta_s (fold_left (tick_step devf inner lv (l_conns (level_of cfg lv)) time roots ext) l a))).
+  { induction l as [|[c k] r IH]; intros a Ha; [exact Ha|]. cbn [fold_left]. apply IH.
     unfold tick_step. cbn [fst snd].
     destruct (in_extent _ roots (ta_touched a) c); [|exact Ha].
     destruct (nonempty (get_d c (ta_in a)) || memb c roots); [|exact Ha].
     destruct (Pos.eqb c ext_id); [exact Ha|]. destruct (Pos.eqb c exp_id); [exact Ha|].
-    unfold dev_update.
-    destruct (devf c _ time _) as [outs ca] eqn:Ed. destruct ca as [w|]; cbn [ta_s]; [|exact Ha].
-    intros [c' w'] He. rewrite wake_of_set_wake in He. apply In_upd_cases in He. destruct He as [[E1 E2]|He].
-    - right. subst c' w'. cbn [snd]. eapply Hwell. rewrite Ed. reflexivity.
-    - apply Ha. exact He. }
-  intros e He. eapply (Hgen (all_of (level_of cfg top))); [exact Hall | | exact He].
-  intros e0 H0. left. exact H0.
+    destruct k as [|lv'].
+    - unfold dev_update. destruct (devf c _ time _) as [outs ca] eqn:Ed. destruct ca as [w|]; cbn [ta_s].
+      + eapply adds_later_trans; [exact Ha|]. eapply adds_later_trans; [|apply adds_later_upd; eapply Hwell; rewrite Ed; reflexivity].
+        apply adds_later_same. reflexivity.
+      + eapply adds_later_trans; [exact Ha|]. apply adds_later_same. reflexivity.
+    - pose proof (Hin lv' time (get_d c (ta_in a)) (ta_s a)) as Hi.
+      destruct (inner lv' time (get_d c (ta_in a)) (ta_s a)) as [[[s1 ch] ca] ob]. destruct Hi as [Hi1 Hi2].
+      destruct ca as [w|]; cbn [ta_s].
+      + eapply adds_later_trans; [exact Ha|]. eapply adds_later_trans; [exact Hi1|]. apply adds_later_upd. apply Hi2. reflexivity.
+      + eapply adds_later_trans; [exact Ha | exact Hi1]. }
+  apply Hgen. apply adds_later_refl.
+Qed.
+
+Theorem on_tick_level_later : forall f, inner_later (on_tick_level cfg devf f).
+Proof.
+  induction f as [|f IH]; intros lv t chg s.
+  - cbn [on_tick_level]. split; [apply adds_later_refl | discriminate].
+  - cbn [on_tick_level].
+    set (roots := int_of s lv ++ _).
+    set (s0 := set_wake s lv (filter (fun e : comp * Z => negb (Z.leb (snd e) t)) (wake_of s lv))).
+    set (s1 := log_tick (mark_ticked (set_int s0 lv []) lv) lv t roots).
+    pose proof (tick_with_later (on_tick_level cfg devf f) lv t roots chg s1 IH) as H2.
+    destruct (tick_with cfg devf (on_tick_level cfg devf f) lv t roots chg s1) as [[s2 out] ob]. cbn [fst] in H2.
+    split.
+    + eapply adds_later_trans; [|exact H2]. eapply adds_later_trans; [apply (adds_later_filter t s lv)|].
+      apply adds_later_same. reflexivity.
+    + intros w Hw. pose proof (min_wake_spec (wake_of s2 lv)) as Hs. rewrite Hw in Hs. destruct Hs as [[e [He Ev]] _].
+      destruct (H2 lv e He) as [H|H]; [|lia].
+      change (wake_of s1 lv) with (wake_of s0 lv) in H. unfold s0 in H. rewrite wake_of_set_wake in H.
+      apply filter_In in H. destruct H as [_ H]. destruct (Z.leb_spec (snd e) t); [discriminate | lia].
+Qed.
+
+(* a tick only adds wakeups at or after its own time *)
+Lemma tick_wakes f time roots ext s :
+  let '(s2, _, _) := tick_with cfg devf (on_tick_level cfg devf f) top time roots ext s in
+  forall e, In e (wake_of s2 top) -> In e (wake_of s top) \/ time <= snd e.
+Proof.
+  pose proof (tick_with_later (on_tick_level cfg devf f) top time roots ext s (on_tick_level_later f)) as H.
+  destruct (tick_with cfg devf (on_tick_level cfg devf f) top time roots ext s) as [[s2 out] ob]. exact (H top).
 Qed.
 
 Variable fuel : nat.
@@ -70,7 +124,7 @@ Proof.
   { destruct (Z.leb_spec (when - initial) t_end), (Z.leb_spec when (initial + t_end)); try reflexivity; lia. }
   rewrite Eb. destruct (Z.leb when (initial + t_end)); [|split; reflexivity].
   unfold do_tick.
-  pose proof (tick_wakes (on_tick_level cfg devf fuel) when roots []
+  pose proof (tick_wakes fuel when roots []
                 (log_tick (set_wake (m_s m) top (filter (fun e : comp * Z => negb (memb (fst e) roots)) (wake_of (m_s m) top))) top when roots)) as Hw.
   unfold tick_level in *.
   destruct (tick_with cfg devf (on_tick_level cfg devf fuel) top when roots [] _) as [[s2 out] o].
@@ -90,7 +144,7 @@ Theorem master_is_sim_loop steps :
   m_s m = s /\ m_obs m = ob.
 Proof.
   unfold simulate_full, sim_run. cbn [fold_left].
-  pose proof (tick_wakes (on_tick_level cfg devf fuel) initial (map fst (l_order (level_of cfg top))) []
+  pose proof (tick_wakes fuel initial (map fst (l_order (level_of cfg top))) []
                 (log_tick (set_wake s_init top []) top initial (map fst (l_order (level_of cfg top))))) as Hw.
   unfold tick_level in *.
   destruct (tick_with cfg devf (on_tick_level cfg devf fuel) top initial _ [] _) as [[s1 out] ob].
